@@ -76,7 +76,7 @@ func Compare(aVal, bVal reflect.Value) int {
 		default:
 			return 0
 		}
-	case reflect.Chan:
+	case reflect.Chan, reflect.Func, reflect.Map:
 		if c, ok := nilCompare(aVal, bVal); ok {
 			return c
 		}
@@ -110,7 +110,7 @@ func Compare(aVal, bVal reflect.Value) int {
 			}
 		}
 		return 0
-	case reflect.Interface, reflect.Func, reflect.Map:
+	case reflect.Interface:
 		if c, ok := nilCompare(aVal, bVal); ok {
 			return c
 		}
